@@ -51,9 +51,9 @@ SPECS["C17"] = dict(
         H("config_h", "c17_quorum_k3", symbolic="stake[3]: u32, lookup key", asserts="as k1"),
         H("config_h", "c17_quorum_k4", symbolic="stake[4]: u32, lookup key", asserts="as k1"),
         H("config_h", "c17_same_k4", symbolic="stake[4]: u32, lookup key", asserts="consensus and mempool committees: same threshold, same stake()"),
-        H("config_h", "c17_quorum_k5", tier="thorough", symbolic="stake[5]", asserts="as k1"),
-        H("config_h", "c17_quorum_k7", tier="thorough", symbolic="stake[7]", asserts="as k1"),
-        H("config_h", "c17_same_k7", tier="thorough", symbolic="stake[7]", asserts="as same_k4"),
+        H("config_h", "c17_quorum_k5", profile="L8", tier="thorough", symbolic="stake[5]", asserts="as k1"),
+        H("config_h", "c17_quorum_k7", profile="L8", tier="thorough", symbolic="stake[7]", asserts="as k1"),
+        H("config_h", "c17_same_k7", profile="L8", tier="thorough", symbolic="stake[7]", asserts="as same_k4"),
     ],
 )
 
@@ -68,6 +68,10 @@ SPECS["C03"] = dict(
     harnesses=[
         H("core_h", "c03_make_vote_no_tc", symbolic="last_voted_round, block.round, qc.round: u64; parent digest", asserts="vote <=> round>last_voted && qc.round+1==round; vote fields; last_voted_round update"),
         H("core_h", "c03_make_vote_tc", symbolic="last_voted_round, block.round, qc.round, tc.round, 3 high_qc rounds: u64", asserts="vote <=> round>last_voted && (qc.round+1==round || (tc.round+1==round && qc.round>=max hq))"),
+        H("core_h", "pb_consec_notc", stubbing=True, timeout=900, mem_gb=16, symbolic="node round/last_voted/high_qc, block round and author (u64/u8); stored 2-chain rounds 5,6", asserts="real process_block: vote on the wire <=> block.round==round && >last_voted && qc.round+1==block.round; sent to leader(round+1); last_voted_round update"),
+        H("core_h", "pb_gap_tc", stubbing=True, timeout=900, mem_gb=16, symbolic="as pb_consec_notc + TC round and 3 high-QC rounds; stored 2-chain rounds 5,7", asserts="as above incl. the TC branch"),
+        H("core2_h", "lt_local_timeout", stubbing=True, timeout=900, mem_gb=16, symbolic="node round/last_voted", asserts="real local_timeout_round raises last_voted_round to the current round"),
+        H("core2_h", "lt_then_proposal", stubbing=True, timeout=1200, mem_gb=20, symbolic="node state, block", asserts="after a local timeout no proposal of that round is voted"),
     ],
 )
 # --------------------------------------------------------------------------------------------- C02
@@ -79,11 +83,117 @@ SPECS["C02"] = dict(
     trusted_base=TB_L,
     assumptions=["abstract hash collision-free on the chain universe", "store holds every ancestor (representation invariant of process_block)"],
     harnesses=[
-        H("core_h", "c02_commit_chain1", timeout=300, stubbing=True, symbolic="round of 1 block, delivered prefix", asserts="delivered sequence == undelivered chain suffix, oldest first; no duplicate; no genesis; idempotent"),
-        H("core_h", "c02_commit_chain2", timeout=300, stubbing=True, symbolic="rounds of 2 blocks, delivered prefix j<2", asserts="as chain1"),
-        H("core_h", "c02_commit_chain3", timeout=300, stubbing=True, symbolic="rounds of 3 blocks, delivered prefix j<3", asserts="as chain1"),
-        H("core_h", "c02_commit_chain4", symbolic="rounds of 4 blocks, delivered prefix j<4", asserts="as chain1", timeout=600, stubbing=True),
+        H("core_h", "c02_n%d_p%d_j%d" % (n, pat, j), tier=("quick" if n <= 3 else "thorough"), timeout=900, mem_gb=16, stubbing=True,
+          symbolic="none of the rounds (they decide the walk's control flow); chain of %d blocks, gap pattern %s (gap %d), delivered prefix %d" % (n, bin(pat), 2 + (pat + j) % 3, j),
+          asserts="delivered sequence == undelivered chain suffix, oldest first; no duplicate; no genesis placeholder; second commit delivers nothing")
+        for n in (1, 2, 3, 4) for pat in range(2 ** n) for j in range(n)
+    ] + [
+        H("core_h", "c02_commit_sym2", tier="thorough", timeout=3600, mem_gb=40, stubbing=True, cost=100,
+          symbolic="both rounds of a 2-chain (any r0 < r1 < 2^62) and the delivered prefix", asserts="as above"),
+    ],
+)
+# --------------------------------------------------------------------------------------------- C19
+SPECS["C19"] = dict(
+    level="model_checking",
+    technique="bounded symbolic execution of the real Aggregator/QCMaker/TCMaker with a ghost stake accumulator (Kani/CBMC, SAT)",
+    bounds="committee of 4 with fully symbolic u32 stakes (total < 2^31); sequences of 4..5 votes/timeouts per maker, each from a symbolic member (duplicates possible), symbolic high-QC rounds; aggregator: 7 votes over 2 concrete blocks x 2 concrete rounds with symbolic authors, equal stakes",
+    outside="longer sequences, more than 4 authorities, more than 2 digests/rounds in one run; real ed25519",
+    trusted_base=TB_L,
+    assumptions=["ideal signatures", "abstract hash collision-free on the 4 vote digests of a run"],
+    harnesses=[
+        H("aggregator_h", "c19_qcmaker_k4", symbolic="4 stakes (u32, total<2^31), 4 vote authors, block digest, round", asserts="QC exactly at the first quorum crossing, once; duplicate -> AuthorityReuse; entries distinct and all voted; QC verifies"),
+        H("aggregator_h", "c19_qcmaker_k5", symbolic="4 stakes, 5 vote authors", asserts="as k4", timeout=900),
+        H("aggregator_h", "c19_tcmaker_k4", symbolic="4 stakes, 4 x (author, high-QC round), round", asserts="TC exactly at the first quorum crossing, once; entries carry each author's own high-QC round; TC verifies"),
+        H("aggregator_h", "c19_tcmaker_k5", symbolic="4 stakes, 5 x (author, high-QC round)", asserts="as k4", timeout=900),
+        H("aggregator_h", "c19_aggregator_no_mixing", symbolic="authors of 7 votes interleaved over 2 blocks x 2 rounds (keys concrete)", asserts="a QC holds only votes cast for its own (block, round); formed at the third distinct vote; verifies"),
+        H("aggregator_h", "c19_cleanup", symbolic="cleanup round", asserts="cleanup(c) drops exactly the partial quorums of rounds < c"),
     ],
 )
 
-SPECS["DBG"] = dict(harnesses=[H("core_h", "dbg_ser_de", timeout=120, need_cover=False, stubbing=True), H("core_h", "dbg_store_de", timeout=120, need_cover=False, stubbing=True)])
+# --------------------------------------------------------------------------------------------- C04
+SPECS["C04"] = dict(
+    level="model_checking",
+    technique="bounded symbolic execution of the real Block/Vote/QC/Timeout/TC::verify against a reference predicate, ideal signatures (Kani/CBMC, SAT)",
+    bounds="committee of 4 with fully symbolic u32 stakes (total < 2^31, zero stakes allowed); certificates with 2..4 entries, each signer symbolic among the 4 members and one non-member (repeats possible), each signature symbolically valid / by another signer / over another digest; all rounds and digests symbolic",
+    outside="real ed25519 arithmetic (verify_strict, batch verification) - the ideal-signature shim's contract; certificates with more than 4 entries; committees of other sizes; effect of a rejected message on later behaviour is checked only at handler level where listed",
+    trusted_base=TB_L,
+    assumptions=["ideal signatures: a signature is valid iff it was made by that signer over exactly that digest", "abstract hash collision-free between the altered and the original digest"],
+    harnesses=[
+        H("messages_h", "c04_qc_verify_k2", symbolic="4 stakes; 2 x (signer, signature validity kind); hash, round", asserts="Ok <=> all signers members with stake, pairwise distinct, stake sum >= threshold, every signature valid for this QC's digest"),
+        H("messages_h", "c04_qc_verify_k3", symbolic="4 stakes; 3 signers", asserts="as k2"),
+        H("messages_h", "c04_qc_verify_k4", symbolic="4 stakes; 4 signers", asserts="as k2", timeout=900),
+        H("messages_h", "c04_tc_verify_k3", symbolic="4 stakes; 3 x (signer, validity, high-QC round); round", asserts="as QC, each signature over (round, that entry's high-QC round)"),
+        H("messages_h", "c04_tc_verify_k4", symbolic="4 stakes; 4 entries", asserts="as k3", timeout=900),
+        H("messages_h", "c04_vote_verify", symbolic="4 stakes; author (member or not), validity", asserts="Ok <=> author has stake and signature valid for this vote's digest"),
+        H("messages_h", "c04_timeout_verify_genesis", symbolic="4 stakes; author, validity; genesis high QC", asserts="Ok <=> author has stake, signature valid"),
+        H("messages_h", "c04_timeout_verify_qc", symbolic="4 stakes; author, validity, embedded 3-vote QC", asserts="Ok <=> author has stake, signature valid, embedded QC valid"),
+        H("messages_h", "c04_block_verify_genesis", symbolic="4 stakes; author, validity; genesis QC", asserts="Ok <=> author has stake, signature valid"),
+        H("messages_h", "c04_block_verify_notc", symbolic="4 stakes; author, validity, embedded QC", asserts="Ok <=> author has stake, signature valid, QC genesis or valid"),
+        H("messages_h", "c04_block_verify_tc", symbolic="as notc + 3-entry TC", asserts="additionally TC valid", timeout=900),
+        H("core2_h", "hp_bad_block_sig", stubbing=True, timeout=1200, mem_gb=20, symbolic="proposal with an invalid own signature, node state", asserts="rejected; round, last_voted, high_qc, timer, wire, commit, proposer, mempool, store, aggregator untouched"),
+        H("core2_h", "hp_bad_qc_vote", stubbing=True, timeout=1200, mem_gb=20, symbolic="proposal whose QC has one invalid vote", asserts="as above"),
+        H("core2_h", "hp_qc_below_quorum", stubbing=True, timeout=1200, mem_gb=20, symbolic="proposal whose QC has 2 votes", asserts="as above"),
+        H("core2_h", "hp_qc_repeated_signer", stubbing=True, timeout=1200, mem_gb=20, symbolic="proposal whose QC repeats a signer", asserts="as above"),
+        H("core2_h", "hv_single", stubbing=True, timeout=900, mem_gb=16, symbolic="vote author/validity/round", asserts="invalid or non-member vote: nothing changes"),
+        H("core2_h", "htc_bad_sig", stubbing=True, timeout=900, mem_gb=16, symbolic="TC with a signature made for another round", asserts="rejected, nothing changes"),
+        H("core2_h", "htc_below_quorum", stubbing=True, timeout=900, mem_gb=16, symbolic="TC with 2 entries", asserts="rejected, nothing changes"),
+    ],
+)
+
+# --------------------------------------------------------------------------------------------- C05
+SPECS["C05"] = dict(
+    level="model_checking",
+    technique="bounded symbolic execution of the real Core::process_block / handle_proposal / handle_vote / handle_tc against the 2-chain commit rule (Kani/CBMC, SAT)",
+    bounds="stored 2-chain genesis<-b0<-b1 with concrete round pairs (5,6) consecutive, (5,7) gapped, (1,2) first blocks, delivered watermark concrete; new block round/author/TC and node state (round, last_voted_round, high_qc) fully symbolic u64; votes, TCs with symbolic rounds",
+    outside="longer ancestor chains in the same step (C02 covers the ancestor walk); other concrete round pairs; payloads",
+    trusted_base=TB_L,
+    assumptions=["ideal signatures", "abstract hash collision-free on the 3 blocks of a run", "rounds below 2^62"],
+    harnesses=[
+        H("core_h", "pb_consec_notc", stubbing=True, timeout=900, mem_gb=16, symbolic="node state, block round/author", asserts="commit channel gets exactly b0 iff b0.round+1==b1.round and b0 not yet delivered"),
+        H("core_h", "pb_gap_notc", stubbing=True, timeout=900, mem_gb=16, symbolic="as above, rounds 5,7", asserts="a round gap between b0 and b1 never commits"),
+        H("core_h", "pb_consec_delivered_notc", stubbing=True, timeout=900, mem_gb=16, symbolic="as above, b0 already delivered", asserts="nothing delivered twice"),
+        H("core_h", "pb_first_notc", stubbing=True, timeout=900, mem_gb=16, symbolic="as above, rounds 1,2 above genesis", asserts="first commit delivers block 1 only (no genesis)"),
+        H("core2_h", "hv_single", stubbing=True, timeout=900, mem_gb=16, symbolic="vote round/author/validity, node state", asserts="a vote never causes a commit"),
+        H("core2_h", "htc_valid", stubbing=True, timeout=900, mem_gb=16, symbolic="TC round, node state", asserts="a TC never causes a commit"),
+        H("core2_h", "hp_valid", stubbing=True, timeout=1200, mem_gb=20, symbolic="proposal round/author, node state", asserts="a valid proposal over a consecutive certified 2-chain commits its head exactly once"),
+        H("core2_h", "hp_bad_qc_vote", stubbing=True, timeout=1200, mem_gb=20, symbolic="as hp_valid with one invalid QC signature", asserts="an uncertified proposal commits nothing"),
+    ],
+)
+# --------------------------------------------------------------------------------------------- C09
+SPECS["C09"] = dict(
+    level="model_checking",
+    technique="bounded symbolic execution of the real RRLeaderElector::get_leader and of the Core handlers' leader checks / proposal requests (Kani/CBMC, SAT)",
+    bounds="committees of 4 (thorough: 3,5,7 via profile L8) built in every insertion order, round any u64; handler steps from arbitrary node states with symbolic message rounds/authors",
+    outside="the Proposer task (make_block) itself; committees above 7",
+    trusted_base=TB_L,
+    assumptions=["ideal signatures", "rounds below 2^62 in handler harnesses"],
+    harnesses=[
+        H("leader_h", "c09_leader_n4", symbolic="insertion order (24 permutations, symbolic), round u64", asserts="leader independent of insertion order; == sorted key [round mod n]; n consecutive rounds cover every authority"),
+        H("core2_h", "hp_valid", stubbing=True, timeout=1200, mem_gb=20, symbolic="proposal round/author (leader or not), node state", asserts="a block of a non-leader is rejected with no effect; votes go to leader(round+1)"),
+        H("core2_h", "hv_quorum", stubbing=True, timeout=1200, mem_gb=20, symbolic="vote round, node state", asserts="exactly one Make(round+1) iff this node leads round+1, only after the round increased"),
+        H("core2_h", "htc_valid", stubbing=True, timeout=900, mem_gb=16, symbolic="TC round, node state", asserts="exactly one Make(round+1, tc) iff this node leads round+1"),
+        H("core2_h", "hv_single", stubbing=True, timeout=900, mem_gb=16, symbolic="vote", asserts="no proposal request without entering a new round"),
+        H("leader_h", "c09_leader_n3", profile="L8", tier="thorough", symbolic="3 keys", asserts="as n4"),
+        H("leader_h", "c09_leader_n5", profile="L8", tier="thorough", symbolic="5 keys", asserts="as n4", timeout=1800),
+    ],
+)
+# --------------------------------------------------------------------------------------------- C10
+SPECS["C10"] = dict(
+    level="model_checking",
+    technique="bounded symbolic execution of the real Core handlers against the pacemaker rules (Kani/CBMC, SAT)",
+    bounds="one handler step (proposal with 3-vote QC, vote, 3 votes forming a QC, TC, local timeout) from an arbitrary node state satisfying the representation invariant; all rounds symbolic u64 below 2^62",
+    outside="multi-step histories beyond the listed 2- and 3-step harnesses; timeouts carrying a non-genesis high QC (wire layout fixed to the genesis shape)",
+    trusted_base=TB_L,
+    assumptions=["ideal signatures", "representation invariant: round>=1, last_voted_round<=round, high_qc.round<round"],
+    harnesses=[
+        H("core2_h", "hp_valid", stubbing=True, timeout=1200, mem_gb=20, symbolic="proposal round/author, node state", asserts="round' = max(round, qc.round+1); high_qc' = max; timer reset iff advanced; never decreases"),
+        H("core2_h", "hv_single", stubbing=True, timeout=900, mem_gb=16, symbolic="vote, node state", asserts="no round/high_qc change without a certificate"),
+        H("core2_h", "hv_quorum", stubbing=True, timeout=1200, mem_gb=20, symbolic="vote round, node state", asserts="round' = r+1 exactly when the QC for r is assembled; high_qc' = max; Make carries high_qc"),
+        H("core2_h", "htc_valid", stubbing=True, timeout=900, mem_gb=16, symbolic="TC round, node state", asserts="round' = tc.round+1 iff tc.round >= round; stale TC ignored; high_qc untouched"),
+        H("core2_h", "htc_bad_sig", stubbing=True, timeout=900, mem_gb=16, symbolic="TC with a transplanted signature", asserts="invalid TC: no round change"),
+        H("core2_h", "lt_local_timeout", stubbing=True, timeout=900, mem_gb=16, symbolic="node state", asserts="Timeout on the wire carries round == current round and high_qc == node's high_qc; round unchanged"),
+        H("core_h", "pb_consec_tc", stubbing=True, timeout=900, mem_gb=16, symbolic="block incl. TC, node state", asserts="process_block alone never moves round or high_qc"),
+    ],
+)
+
+SPECS["DBG"] = dict(harnesses=[H("core_h", "dbg_commit_one", timeout=200, need_cover=False, stubbing=True), H("core_h", "dbg_parent_one", timeout=200, need_cover=False, stubbing=True), H("core_h", "dbg_ser_de", timeout=120, need_cover=False, stubbing=True), H("core_h", "dbg_store_de", timeout=120, need_cover=False, stubbing=True)])
